@@ -9,10 +9,12 @@
      LIB that arrives first is delivered as New on an empty consumer stack, and once something has
      been sent the LIB block, when it arrives, is only stored: it is never delivered;
    * after the initial path the consumer stack keeps the LIB block at its bottom forever.
-   The invariant of FixedLib.v is generalised by that optional bottom block `base`. *)
+   The invariant of FixedLib.v is generalised by that optional bottom block `base`, and by the weaker
+   knowledge `wlib` of the LIB (FixedLibWeak.v), so that it also holds after a LIB discovered from the
+   stream (FixedLibDisc.v). *)
 From BV Require Import Base.Prelude Model.Block Model.ForkDB Model.Forkable Spec.Consumer
   Proofs.Fk.StoreFacts Proofs.Fk.WalkFacts Proofs.Fk.LoopFacts Proofs.Fk.StoreChange Proofs.Fk.SwitchFacts
-  Proofs.Fk.FixedLib.
+  Proofs.Fk.FixedLib Proofs.Fk.FixedLibWeak.
 Local Open Scope N_scope.
 
 Section FixedLibIncl.
@@ -44,7 +46,7 @@ Section FixedLibIncl.
   Record InvG (s : fstate) (S : cstack) : Prop := mkInvG {
     g_nodup : NoDup (keys (store (db s)));
     g_inU : in_U U (store (db s));
-    g_lib : lib_db r0 (db s);
+    g_lib : wlib r0 (db s);
     g_lc : lc r0 (store (db s));
     (* with includeInitialLIB the LIB block is not stored before something has been sent *)
     g_libblock : c_incl cfg = true -> last_sent s = None -> ~ In (ri r0) (keys (store (db s)));
@@ -59,27 +61,30 @@ Section FixedLibIncl.
 
   Lemma invG_init m : m = LExcl r0 \/ m = LIncl r0 -> InvG (fs_init m) [].
   Proof.
-    intros [->| ->]; constructor; cbn.
-    all: try (intros e []).
-    all: try (split; reflexivity).
-    all: try (intros _ _ []).
-    all: try constructor.
-    all: try reflexivity.
-    all: try (intros e []).
-    all: intros [].
+    assert (Hw : wlib r0 (init_lib db_empty r0)).
+    { split; [reflexivity|]. unfold num_of. cbn. rewrite N.eqb_refl. reflexivity. }
+    assert (G : forall lls, InvG (mkFS (init_lib db_empty r0) None lls 0) []).
+    { intros lls. constructor; cbn [db last_sent store init_lib db_empty keys map].
+      - constructor.
+      - intros e [].
+      - exact Hw.
+      - intros e [].
+      - intros _ _ [].
+      - split; [reflexivity | intros e []]. }
+    intros [->| ->]; apply G.
   Qed.
 
-  Lemma initial_false_ne s b : lib_db r0 (db s) -> initial s b = false ->
+  Lemma initial_false_ne s b : libref (db s) = r0 -> initial s b = false ->
     c_incl cfg = true -> last_sent s = None -> bid b <> ri r0.
   Proof.
-    intros [Hl _] Hi Hc Hls. unfold initial in Hi. rewrite Hc, Hls, Hl in Hi. cbn [andb] in Hi.
+    intros Hl Hi Hc Hls. unfold initial in Hi. rewrite Hc, Hls, Hl in Hi. cbn [andb] in Hi.
     apply N.eqb_neq. exact Hi.
   Qed.
 
   (* ---------------------------------------------------------------- ProcessBlock, unfolded *)
 
   Lemma fk_step_newG s b undos redos junc :
-    lib_db r0 (db s) -> In b U -> find (bid b) (store (db s)) = None -> dropped s b = false -> initial s b = false ->
+    libref (db s) = r0 -> In b U -> find (bid b) (store (db s)) = None -> dropped s b = false -> initial s b = false ->
     sw_of cfg s b = ScssOk undos redos junc ->
     fk_step cfg s b =
       let s1 := with_db s (new_db (db s) b) in
@@ -96,7 +101,7 @@ Section FixedLibIncl.
     unfold sw_of in Hsw. rewrite Hsw.
     rewrite (add_link_new U U_id _ _ Hb Hf).
     assert (Hhl : has_lib (new_db (db s) b) = true).
-    { apply (has_lib_r0 r0 L_id). destruct Hl as [Ha Hb']. split; cbn; assumption. }
+    { apply (has_lib_w r0 L_id). exact Hl. }
     rewrite Hhl. cbn [with_db db].
     destruct (reversible_segment (new_db (db s) b) first (bref b)) as [[longest reach]|]; reflexivity.
   Qed.
@@ -156,7 +161,7 @@ Section FixedLibIncl.
     constructor; cbn [with_db db new_db store extra libref last_sent].
     - rewrite keys_snoc. apply nodup_snoc; [exact Hnd | exact Hk].
     - intros e He. apply in_app_or in He as [He|[<-|[]]]; [apply HU; exact He | exact Hb].
-    - exact Hl.
+    - apply (wlib_add U r0 L_num); assumption.
     - intros e He Hs. apply in_app_or in He as [He|[<-|[]]]; [|discriminate].
       destruct (Hlc e He Hs) as [H|(p & Hp & Hps)]; [left; exact H|].
       right. exists p. split; [apply find_snoc_old; exact Hp | exact Hps].
@@ -196,18 +201,18 @@ Section FixedLibIncl.
     destruct (filter_sent_split Rs Ru HRs HRu) as [F1 F2].
     assert (Hun : filter (fun e => negb (esent e)) q = Ru ++ [en]).
     { unfold q. rewrite HP, HR, !filter_app, (filter_unsent_nil C HC), <- filter_app, F2. reflexivity. }
-    destruct (process_tail_ok r0 cfg Hnofail Hnew Hundo L_id s1 b (rev Uh) (filter esent R) junc (map seg_of q)) as
+    destruct (process_tail_ok_w r0 cfg Hnofail Hnew Hundo L_id s1 b (rev Uh) (filter esent R) junc (map seg_of q)) as
       (s3 & evU & evR & evN & Hrun & HmU & HsU & HmR & HsR & HmN & HsN & Hst & Hex & Hlr & Hls).
     - exact Hl.
     - unfold q. destruct pP; discriminate.
     - intros d ls Hd He Hlb' Hin.
-      assert (Hld : lib_db r0 d) by (destruct Hl as [A B]; split; congruence).
+      assert (Hld : wlib r0 d) by (eapply wlib_marked; eassumption).
       destruct Hin as [Hin|Hold].
       + rewrite unsent_map, map_map in Hin. apply in_map_iff in Hin as (e & <- & Hin). cbn [sent seg_of].
         apply filter_In in Hin as [Hin _].
         rewrite (L_lib (eb e) (HU e (Hq e Hin))).
         apply in_split in Hin as (q1 & q2 & Heq). rewrite Heq in Hc.
-        eapply (bic_marked U r0 cfg U_id U_up L_id L_num L_up _ q d _ q1 e Hnd HU Hq Hld Hd). eapply chain_prefix. exact Hc.
+        eapply (bic_marked_w U r0 cfg U_id U_up L_id L_up _ q d _ q1 e Hnd HU Hq Hld Hd). eapply chain_prefix. exact Hc.
       + rewrite Hold in Hh. destruct Hh as (HhU & pH & baseH & HcH & _ & _ & _).
         rewrite (L_lib ls HhU).
         destruct pH as [|eh pH'] using rev_ind.
@@ -217,7 +222,7 @@ Section FixedLibIncl.
         * clear IHpH'.
           destruct (chain_snoc_inv _ _ _ _ _ HcH) as (_ & Hfh & _).
           rewrite <- (stored_is_self U U_uniq _ _ _ HU HhU Hfh).
-          eapply (bic_marked U r0 cfg U_id U_up L_id L_num L_up _ q d _ pH' eh Hnd HU Hq Hld Hd). exact HcH.
+          eapply (bic_marked_w U r0 cfg U_id U_up L_id L_up _ q d _ pH' eh Hnd HU Hq Hld Hd). exact HcH.
     - exists s3, (evU ++ evR ++ evN). split; [exact Hrun|].
       assert (Hkeys : keys (store (db s3)) = keys (store (db s1))) by (rewrite Hst; apply mark_all_keys).
       split; [|split; [|exact Hkeys]].
@@ -244,7 +249,7 @@ Section FixedLibIncl.
         constructor.
         * rewrite Hst. apply l3_nodup; assumption.
         * rewrite Hst. apply l3_inU; assumption.
-        * destruct Hl as [A B]. split; congruence.
+        * eapply wlib_marked; eassumption.
         * rewrite Hst. eapply l3_lc; try eassumption. reflexivity.
         * intros _ Hn. rewrite Hls3 in Hn. discriminate.
         * rewrite Hls3.
@@ -274,7 +279,7 @@ Section FixedLibIncl.
       pose proof Hini as Hini'. unfold initial in Hini'.
       apply andb_true_iff in Hini' as [Hi1 Hi3]. apply andb_true_iff in Hi1 as [Hi1 Hi2].
       destruct (last_sent s) as [hd|] eqn:Hls; [discriminate|]. destruct Hh as [-> Hall].
-      apply N.eqb_eq in Hi3. destruct Hl as [Hlr Hle]. rewrite Hlr in Hi3.
+      apply N.eqb_eq in Hi3. pose proof (proj1 Hl) as Hlr. rewrite Hlr in Hi3.
       assert (Hk : ~ In (bid b) (keys (store (db s)))) by (rewrite Hi3; apply Hlb; [exact Hi1 | reflexivity]).
       assert (Hf : find (bid b) (store (db s)) = None) by (apply find_none; exact Hk).
       rewrite (fk_step_initialG s b Hb Hf Hd Hini).
@@ -286,7 +291,7 @@ Section FixedLibIncl.
       - constructor; rewrite ?Hdb; cbn [new_db store extra libref].
         + rewrite keys_snoc. apply nodup_snoc; [exact Hnd | exact Hk].
         + intros e He. apply in_app_or in He as [He|[<-|[]]]; [apply HU; exact He | exact Hb].
-        + split; assumption.
+        + apply (wlib_add U r0 L_num); assumption.
         + intros e He Hs. apply in_app_or in He as [He|[<-|[]]]; [|discriminate].
           destruct (Hlc e He Hs) as [H|(p & Hp & Hps)]; [left; exact H|].
           right. exists p. split; [apply find_snoc_old; exact Hp | exact Hps].
@@ -302,7 +307,7 @@ Section FixedLibIncl.
       { destruct (in_dec N.eq_dec (bid b) (keys (store (db s)))) as [i|n]; [exact i|]. apply find_none in n. congruence. }
       split; [reflexivity|]. split; [reflexivity|]. split; [assumption|]. apply extras_same; auto. }
     (* a new block *)
-    pose proof (invG_add s S b HI Hb Hf (initial_false_ne s b Hl Hini)) as HI1.
+    pose proof (invG_add s S b HI Hb Hf (initial_false_ne s b (proj1 Hl) Hini)) as HI1.
     set (s1 := with_db s (new_db (db s) b)) in *.
     set (en := mkEntry b false).
     assert (Hk : ~ In (bid b) (keys (store (db s)))) by (apply find_none; exact Hf).
@@ -310,7 +315,7 @@ Section FixedLibIncl.
     { unfold sw_of. destruct (f_undo (c_filter cfg) && triggers cfg s b); [|eauto].
       destruct (last_sent s) as [ls|]; [apply scss_total; exact Hwf | eauto]. }
     destruct Hsw as (undos & redos & junc & Hsw).
-    rewrite (fk_step_newG s b undos redos junc Hl Hb Hf Hd Hini Hsw). cbv zeta. fold s1.
+    rewrite (fk_step_newG s b undos redos junc (proj1 Hl) Hb Hf Hd Hini Hsw). cbv zeta. fold s1.
     pose proof HI1 as [Hnd1 HU1 Hl1 Hlc1 Hlb1 Hh1].
     pose proof (wf_of_U U U_id U_up _ Hnd1 HU1) as Hwf1.
     change (new_db (db s) b) with (db s1).
@@ -325,13 +330,13 @@ Section FixedLibIncl.
     { unfold s1. cbn [with_db db new_db store]. apply (find_snoc_new (store (db s)) en). exact Hk. }
     assert (Hshape : exists pP, chain (store (db s1)) (bid b) (ri r0) (pP ++ [en]) /\ longest = map seg_of (pP ++ [en])).
     { destruct reach.
-      - destruct (chain_of_rs r0 cfg (db s1) (bid b) en longest Hl1 Hfb) as (p & Hc & Hp).
+      - destruct (chain_of_rs_w r0 cfg (db s1) (bid b) en longest (proj1 Hl1) Hfb) as (p & Hc & Hp).
         { unfold reversible_segment. cbn [ri rn eb en]. exact Hrs. }
         destruct p as [|e' p'] using rev_ind.
         + subst longest. discriminate.
         + clear IHp'. destruct (chain_snoc_inv _ _ _ _ _ Hc) as (_ & Hf' & _). rewrite Hfb in Hf'. injection Hf' as <-.
           exists p'. auto.
-      - apply (rs_false_nil cfg (db s1) (has_lib_r0 r0 L_id _ Hl1)) in Hrs. subst longest. discriminate. }
+      - apply (rs_false_nil cfg (db s1) (has_lib_w r0 L_id _ (proj1 Hl1))) in Hrs. subst longest. discriminate. }
     destruct Hshape as (pP & Hc & ->).
     destruct (chain_snoc_inv _ _ _ _ _ Hc) as (_ & _ & HcP). cbn [eb en] in HcP.
     assert (Hnin : ~ In en pP).
@@ -358,7 +363,7 @@ Section FixedLibIncl.
         * exists s3, evs, (rev (map eb (pP ++ [en])) ++ base). split; [exact Hrun|]. split; [exact Happ|]. split; [exact HI3|].
           eapply Hfin3; eassumption.
       + destruct (scss_link (db s) (ri r0) (bid hd) (bparent b) pH pP Hwf Hneq HcH HcP0) as (C & R & Uh & j & HP & HH & Hsc).
-        { intros f t e0 Hu He0. exact (tail_disjoint U r0 cfg U_id U_up L_id L_num L_up (db s) pP (bparent b) Hl HU Hnd HcP0 f t e0 Hu He0). }
+        { intros f t e0 Hu He0. exact (tail_disjoint_w U r0 cfg U_id U_up L_id L_num L_up (db s) pP (bparent b) HU Hnd HcP0 f t e0 Hu He0). }
         rewrite Hsc in Hsw. injection Hsw as <- <- <-.
         destruct (trigger_finishG s1 S b pP C R Uh j base HI1 Hb Hc HP) as (s3 & evs & Hrun & Happ & HI3 & Hk3).
         * rewrite HH in HsH. apply Forall_app in HsH. tauto.
